@@ -69,12 +69,52 @@ def keep(prop, x, name, results):
         json.dump(meta, fp, indent=1)
 
 
-if __name__ == "__main__":
+if __name__ == "__main__" and sys.argv[1] == "rerun":
+    pass
+elif __name__ == "__main__":
     cmd, prop, x = sys.argv[1:4]
     if cmd == "run":
         checks = sys.argv[4:] or ALL
         res = run(prop, x, checks)
         if res is not None:
-            keep(prop, x, "%s-%s" % (prop, x), res)
+            # BENIGN_TAG=B2 keeps a later round next to the first one (C01-B2A ...)
+            keep(prop, x, "%s-%s%s" % (prop, os.environ.get("BENIGN_TAG", ""), x), res)
             alarms = [c for c, r in res.items() if isinstance(r, dict) and r.get("exit")]
             print("%s-%s suite=%r agent_check=%s alarms=%s" % (prop, x, res.get("suite"), res.get("agent_check_exit"), alarms))
+
+
+def rerun(name, checks=None):
+    """Re-run the checks against a kept harmless change in a throw-away worktree of the current /repo HEAD"""
+    d = os.path.join(HERE, "seeded", "benign", name)
+    meta = json.load(open(os.path.join(d, "meta.json")))
+    wt = "/tmp/mut/benign-%s-%d" % (name, os.getpid())
+    sh("git -C /repo worktree add --detach %s HEAD -q" % wt, "/")
+    results = {}
+    try:
+        rc, o = sh("git apply %s" % os.path.join(d, "patch.diff"), wt)
+        if rc:
+            print("%s: patch no longer applies to HEAD (%s)" % (name, o.strip().splitlines()[0] if o.strip() else ""))
+            results = {"applies": False}
+        else:
+            env = "VERIF_REPO=%s PYTHONPATH=%s " % (wt, wt)
+            for c in checks or ALL:
+                t0 = time.time()
+                rc, o = sh("%s./check %s --tier quick --no-evidence" % (env, c), HERE, 2400)
+                sigs = [l.strip().split("signature: ")[1] for l in o.splitlines() if "signature: " in l]
+                herr = [l for l in o.splitlines() if l.startswith("HARNESS-ERROR")]
+                results[c] = {"exit": rc, "signatures": sigs, "harness": herr[:2], "wall_s": round(time.time() - t0, 1)}
+                if rc != 0:
+                    print("ALARM %s %s exit %d %s %s" % (name, c, rc, sigs[:3], herr[:1]))
+                    results[c]["tail"] = [l for l in o.splitlines() if l.strip()][-25:]
+    finally:
+        sh("git -C /repo worktree remove --force %s" % wt, "/")
+    commit = sh("git rev-parse --short HEAD", HERE)[1].strip()
+    meta.setdefault("reruns", []).append({"verif_commit": commit, "repo_commit": sh("git -C /repo rev-parse --short HEAD", "/")[1].strip(), "results": results,
+                                          "alarms": sorted(c for c, r in results.items() if isinstance(r, dict) and r.get("exit"))})
+    json.dump(meta, open(os.path.join(d, "meta.json"), "w"), indent=1)
+    print("%s rerun alarms=%s" % (name, meta["reruns"][-1]["alarms"]))
+
+
+if __name__ == "__main__" and sys.argv[1] == "rerun":
+    for n in sys.argv[2:]:
+        rerun(n)
